@@ -142,13 +142,26 @@ func extract() error {
 	default:
 		return fmt.Errorf("zero-value else-branch of StructLikeWriteField not recognised")
 	}
+	// blackAll: `All()` alone decides whether the pre-count is skipped (no IsBlack() in the three container writers)
+	nb := 0
+	for _, t := range []string{templates.FieldWriteList, templates.FieldWriteSet, templates.FieldWriteMap} {
+		if strings.Contains(t, ".IsBlack()") {
+			nb++
+		}
+	}
+	if nb != 0 && nb != 3 {
+		return fmt.Errorf("FieldWriteList/Set/Map differ in their use of IsBlack() (%d of 3): the model has one switch", nb)
+	}
+	blackAll := nb == 0
+	// reqSub: a required field takes the sub-mask of Field(id) whatever its answer (`fm, _ :=`)
+	reqSub := regexp.MustCompile(`fm\s*,\s*_\s*:=\s*p\._fieldmask\.Field\(`).MatchString(wf)
 	fmt.Printf(`import ThriftVerif.Gen.Mask
 /- GENERATED by harness/cmd/c13 extract (shape of the field-mask templates of the tree under test:
    templates.FieldWriteList / FieldWriteSet pre-count loop, StructLikeWriteField zero-value else-branch); do not edit. -/
 namespace Generated.C13
-def tpl : Gen.Mask.Tpl := { preMut := %v, zeroAll := %v }
+def tpl : Gen.Mask.Tpl := { preMut := %v, zeroAll := %v, blackAll := %v, reqSub := %v }
 end Generated.C13
-`, l, zeroAll)
+`, l, zeroAll, blackAll, reqSub)
 	return nil
 }
 
@@ -390,7 +403,8 @@ func run(repo, dir string, seed uint64, nprog, nvalues, nmasks int, keep bool) i
 		}
 		nfail++
 		out.Count("oracle.fail." + v.key)
-		if old, ok := best[v.key]; !ok || len(line) < len(old.line) {
+		// representative of a class: a case of the directed unit if there is one (the same input whatever the seed), else the shortest
+		if old, ok := best[v.key]; !ok || (c.direct && !old.c.direct) || (c.direct == old.c.direct && len(line) < len(old.line)) {
 			best[v.key] = &failure{c: c, line: line, ans: ans, v: v}
 		}
 	}
@@ -414,7 +428,7 @@ func run(repo, dir string, seed uint64, nprog, nvalues, nmasks int, keep bool) i
 		fmt.Printf("ORACLE FAIL [%s %v] %s: %s\n  mask: %s\n  op: %.400s\n  got: %.300s\n", c.unit.Key, c.unit.Options, k, v.msg, describeMask(c.black, c.tree, c.isNil), line, strings.Join(ans, ""))
 		out.Fail(vl.OracleFail{Key: key, What: c.what + ": " + v.msg,
 			Input: map[string]interface{}{"unit": c.unit.Key, "options": c.unit.Options, "schema": c.unit.SchemaLines(), "struct": c.unit.Schema.Structs[c.sidx].Name,
-				"mask": describeMask(c.black, c.tree, c.isNil), "env": describeEnv(c.env), "value": c.value.String(), "op": line, "occurrences": out.Stats["oracle.fail."+k]},
+				"mask": describeMask(c.black, c.tree, c.isNil), "env": describeEnv(c.env), "value": c.value.String(), "op": line},
 			Expected: v.expected, Observed: v.observed})
 		out.Sample(map[string]string{"op": line, "got": strings.Join(ans, ""), "why": v.msg})
 	}
@@ -437,7 +451,7 @@ var stableKeys = map[string]bool{
 	"union-field-white-unselectable":       true, "union-field-black-unfilterable": true,
 	"required-black-submask-applied": true,
 	"read:union-field-white-unselectable": true, "read:union-field-black-unfilterable": true,
-	"zero-required-rejects-union-field": true,
+	"zero-required-rejects-union-field": true, "union-element-paths-rejected": true,
 }
 
 func minI(a, b int) int {
@@ -584,6 +598,9 @@ func verdict(c *check, ans string) verdictT {
 	switch f[0] {
 	case "maskerr", "maskpanic":
 		// the path sets are valid by construction; a struct without fields cannot be named by `.*`, everything else must be accepted
+		if entersUnionElems(s, rt, c.tree) {
+			return verdictT{key: "union-element-paths-rejected", msg: "fieldmask.NewFieldMask refuses every path into a list/set/map whose element type is a union or exception (switchFt: Invalid)", expected: "a mask", observed: f[0]}
+		}
 		return verdictT{key: "valid-paths-rejected", msg: "fieldmask.NewFieldMask refuses a path set that is valid for the descriptor (" + f[0] + ")", expected: "a mask", observed: f[0]}
 	case "panic", "err", "nomethod", "crash":
 		return verdictT{key: c.what + "-fails", msg: "masked " + c.what + " fails on a value whose unmasked encoding exists", expected: "ok", observed: ans}
